@@ -847,6 +847,52 @@ func (in *Interp) callBuiltin(fr *frame, b *ssa.Builtin, args []Value, site ssa.
 		}
 		ch.c.closed = true
 		return nil
+	case "SliceData": // unsafe.SliceData
+		s := args[0].(SliceV)
+		if s.obj == nil {
+			return Pointer{}
+		}
+		return Pointer{s.obj, extendPath(s.path, s.off)}
+	case "StringData": // unsafe.StringData
+		s := args[0].(StrV)
+		vals := make([]Value, len(s.b))
+		for i, t := range s.b {
+			vals[i] = t
+		}
+		obj := in.newObject(&ArrayV{e: vals}, "stringdata")
+		return Pointer{obj, []int{0}}
+	case "String", "Slice": // unsafe.String(ptr, len), unsafe.Slice(ptr, len)
+		n := in.concInt(args[1], "unsafe."+b.Name()+" length")
+		p, ok := args[0].(Pointer)
+		if !ok {
+			unsupp("unsafe.%s on %T", b.Name(), args[0])
+		}
+		if p.obj == nil {
+			if n != 0 {
+				in.goPanicRuntime("unsafe." + b.Name() + ": ptr is nil and len is not zero")
+			}
+			if b.Name() == "String" {
+				return StrV{}
+			}
+			return SliceV{}
+		}
+		if len(p.path) == 0 {
+			unsupp("unsafe.%s on a pointer that is not an array element", b.Name())
+		}
+		base, idx := p.path[:len(p.path)-1], p.path[len(p.path)-1]
+		_, _, cur := in.resolve(Pointer{p.obj, base})
+		arr, isArr := cur.(*ArrayV)
+		if !isArr || idx+n > len(arr.e) {
+			unsupp("unsafe.%s beyond the underlying array", b.Name())
+		}
+		if b.Name() == "Slice" {
+			return SliceV{obj: p.obj, path: base, off: idx, len: n, cap: n}
+		}
+		out := make([]*Term, n)
+		for i := 0; i < n; i++ {
+			out[i] = arr.e[idx+i].(*Term)
+		}
+		return StrV{out} // snapshot: later writes through the bytes are not reflected (strings are immutable by contract)
 	case "ssa:wrapnilchk":
 		if p, ok := args[0].(Pointer); ok && p.obj == nil {
 			in.goPanicRuntime("value method called using nil pointer")
